@@ -839,7 +839,7 @@ fn kill_group(c: &mut std::process::Child) {
 fn run_worker(base: &Path, script: &Script, delivery: &Delivery, extra_env: &[(String, String)]) -> Option<RunOut> {
     use std::os::unix::process::CommandExt;
     let (dir, sp) = prepare_dir(base, script)?;
-    let exe = std::env::current_exe().ok()?;
+    let exe = crate::fw::self_exe().ok()?;
     let trace_path = dir.join("trace.txt");
     let mut cmd = match delivery {
         Delivery::Timer { .. } => std::process::Command::new(&exe),
